@@ -6,4 +6,6 @@ Eip191Prefix == <<25>> \o <<69,116,104,101,114,101,117,109,32,83,105,103,110,101
 \* decimal ASCII of a length (a TLC natural)
 DecimalAscii(n) == NatDecCodes(n)
 PersonalDigest(m) == Keccak256(Eip191Prefix \o DecimalAscii(Len(m)) \o m)
+\* the digest of the message <<b, ..., b>> of n bytes (= PersonalDigest([i \in 1..n |-> b]), evaluated without the sequence)
+PersonalDigestRep(b, n) == Keccak256Rep(Eip191Prefix \o DecimalAscii(n), b, n)
 =============================================================================
